@@ -596,9 +596,10 @@ def gen_api(ctx, corpus, garbage):
         body = pad33(w)
         cls = lbl.split("/")[0]
         nopl = "payload" not in w
+        cgen = (w.get("payload") or {}).get("gen", 0) if isinstance(w.get("payload"), dict) else 0
         for handler in ("uni", "bidi"):
             for ccgen in ((None, 1, 1000) if (nopl or lbl.startswith(("base/", "gen-", "w-"))) else (1000,)):
-                add(("no-payload" if nopl else cls) + ("/server-cc-newer" if ccgen == 1000 else ""), handler, body, ccgen=ccgen)
+                add(("no-payload" if nopl else cls) + ("/server-cc-newer" if (ccgen is not None and ccgen > cgen) else ""), handler, body, ccgen=ccgen)
     base = pad33(base_wrapper(1, rng=ctx.rng))
     nopl = pad33({"secret": SECRET})
     for handler in ("uni", "bidi"):
@@ -1167,7 +1168,23 @@ REQUIRED_KINDS = [
 ]
 
 
+def cleanup():
+    import glob
+    for f in glob.glob(os.path.join(lib.BUILD, "c11_view_*_%d_test.go" % os.getpid())):
+        try:
+            os.remove(f)
+        except OSError:
+            pass
+
+
 def run(ctx):
+    try:
+        run_(ctx)
+    finally:
+        cleanup()
+
+
+def run_(ctx):
     ctx.assumptions += [
         "protobuf decoding is the library's: the model takes the decoded record (and what the library makes of each Any value) as input; "
         "panics inside protobuf, TOML, zmq, pion, obfs4, noise, gopacket, maxminddb, net/http are outside the model",
@@ -1186,9 +1203,10 @@ def run(ctx):
                        "wrong-length addresses and secrets / mismatched Any types around well-formed messages, plus a seeded malformed stream; "
                        "a case is non-trivial if it is hash-distinct; the histogram lists outcome classes per entry point and every class must be hit")
     ctx.coq_props()
-    rc, out = ctx.coq_make(["C11/Examples.vo"])
+    # one more turn at the tree lock for everything else the run needs (Examples: non-vacuity; Run: the case checker)
+    rc, out = ctx.coq_make(["C11/Examples.vo", "C11/Run.vo"])
     if rc != 0:
-        ctx.broken("examples", "coq/C11/Examples.v (non-vacuity examples, witness of finding #8 on the pre-fix model) no longer compiles: " + out[-500:])
+        ctx.broken("examples", "coq/C11/Examples.v (non-vacuity examples, witness of finding #8 on the pre-fix model) or Run.v no longer compiles: " + out[-500:])
     quick = ctx.tier == "quick"
     rng = ctx.rng
     corpus = wrapper_corpus(rng, 120 if quick else 2500)
@@ -1218,7 +1236,7 @@ def run(ctx):
             dns_pkts.insert(0, ("replay", bytes.fromhex(c["pkt"]), None, 0))
     if not quick:
         # coverage-guided search per entry point; what the fuzzers kept is replayed below against the model
-        found = fuzz_all(ctx, corpus, garbage, dns_pkts, int(os.environ.get("VERIF_FUZZTIME", "150")))
+        found = fuzz_all(ctx, corpus, garbage, dns_pkts, int(os.environ.get("VERIF_FUZZTIME", "240")))
         for v in found["ingest"]:
             if len(v) == 2 and isinstance(v[0], bytes):
                 st_cases.append({"op": "ingest", "msg": v[0].hex(), "v4": bool(v[1] & 1), "v6": bool(v[1] & 2), "geofail": bool(v[1] & 4)})
@@ -1338,7 +1356,7 @@ def run(ctx):
     hdr = header(tbl) + "Lemma pfxtab_wf : tbl_wf pfxtab = true. Proof. vm_compute. reflexivity. Qed.\n"
     import time
     t0 = time.time()
-    mm = ctx.coq_mismatches("all", hdr, terms, "chk", shard=max(150, len(terms) // 15 + 1), need_vo=["C11/Run.vo"])
+    mm = ctx.coq_mismatches("all", hdr, terms, "chk", shard=max(150, len(terms) // 15 + 1))
     TIMES["coq(%d terms)" % len(terms)] = round(time.time() - t0, 1)
     if mm:
         ctx.cov["mismatches"] += len(mm)
